@@ -76,19 +76,24 @@ let () =
     verdict (Coarsen.sa_formula_ok sc omega a (reshape a fl) pt p));
   reg "o.sa_rowsum" (fun t -> let a = t_crs t in let fl = t_ivec t in let p = t_crs t in
     verdict (Coarsen.sa_rowsum_ok sc a (reshape a fl) p));
-  reg "o.rs_rowsum" (fun t -> let a = t_crs t in let fl = t_ivec t in let cf = cf_of_string (t_s t) in let p = t_crs t in
-    verdict (Coarsen.rs_rowsum_ok sc a (reshape a fl) cf p));
+  reg "o.rs_rowsum" (fun t -> let dt = t_i t in let et = t_q t in let a = t_crs t in let fl = t_ivec t in
+    let cf = cf_of_string (t_s t) in let p = t_crs t in
+    verdict (Coarsen.rs_rowsum_ok sc (dt <> 0) et a (reshape a fl) cf p));
   reg "o.transpose" (fun t -> let p = t_crs t in let r = t_crs t in
     verdict (Coarsen.transpose_ok sc p r));
   (* lifting: what coarsening A (x) I_b with block_size b has to give, from the scalar model *)
   reg "kron_pointwise" (fun t -> let a = t_crs t in let _ = t_q t in let eps2 = t_q t in let b = t_i t in
-    show_aggr (Coarsen.lifted_aggregates b (Aggregates.plain_aggregates sc eps2 a (junk0 a))));
+    let an = Coarsen.mabs sc a in
+    show_aggr (Coarsen.lifted_aggregates b (Aggregates.plain_aggregates sc eps2 an (junk0 an))));
   reg "kron_sa" (fun t -> let a = t_crs t in let _ = t_q t in let eps2 = t_q t in let b = t_i t in
     let relax = t_q t in let c23 = t_q t in
-    match Coarsen.sa_transfer sc eps2 relax c23 1 a (junk0 a) with
-    | Coarsen.TrOk (p, _) -> let pl = Coarsen.kron_id sc b p in
-      show_crs pl ^ " " ^ show_crs (MatOps.transpose sc pl)
-    | x -> show_tr x);
+    show_tr (Coarsen.lifted_sa sc eps2 (Coarsen.sa_omega sc relax c23) b a (junk0 a)));
+  (* the two groups' models of the current pointwise_matrix agree *)
+  reg "o.pwm_agree" (fun t -> let a = t_crs t in let bs = t_i t in
+    verdict (match Aggregates.pwm sc a bs, MatOps2.pointwise_matrix sc a bs with
+             | None, None -> true
+             | Some x, Some y -> Coarsen.crs_eqb sc x y
+             | _, _ -> false));
   (* near-null-space variant, double build: P * Bnew = B on aggregated rows, P^T P = I, up to tol *)
   reg "o.tentative_ns" (fun t ->
     let n = t_i t in let _naggr = t_i t in let id = t_ivec t in let _bs = t_i t in let cols = t_i t in
